@@ -397,10 +397,10 @@ HARNESSES = [
                  'the key position is a symbolic int over ALL of [0,65536) (compute_ring_position stubbed at lookup)',
                  'destination sets: the fixed family DEST_SETS (1..8 destinations, several instances per server); '
                  'replication factor 1..4 and DIVERSE_REPLICAS both values are enumerated inside every path']),
-  H('C05_after_remove', quick=dict(timeout=200, shards=[sh for sh in _rm_shards([2], 25) if sh[0].endswith(('_0', '_4'))]), thorough=dict(timeout=600, shards=_rm_shards([2, 3, 5], 40)),
+  H('C05_after_remove', quick=dict(timeout=200, shards=[sh for sh in _rm_shards([2], 25) if sh[0].endswith(('_0', '_4'))]), thorough=dict(timeout=600, shards=_rm_shards([2, 3], 80)),
     covers=['walked'], replay='replay_after_remove',
     encodes=['carbon.routers:ConsistentHashingRouter.removeDestination', 'carbon.routers:ConsistentHashingRouter.getDestinations', 'carbon.hashing:ConsistentHashRing.remove_node'],
-    assumptions=['routers built by real addDestination calls followed by one removeDestination (each destination in turn); every ring position symbolic (quick: two position ranges of ~25 ring entries per removed destination; thorough: the whole ring); RF 1..4 and DIVERSE both enumerated inside each path']),
+    assumptions=['routers built by real addDestination calls followed by one removeDestination (each destination in turn); every ring position symbolic (quick: two position ranges of ~25 ring entries per removed destination; thorough: the whole ring, destination sets 2 and 3); RF 1..4 and DIVERSE both enumerated inside each path']),
   H('C05_aggregated', quick=dict(timeout=280, shards=[('m%d' % k, 'mode == %d' % k) for k in (0, 1, 3, 5)] + [('m%d_rf%d' % (k, f), 'mode == %d and rf == %d' % (k, f)) for k in (2, 4) for f in (1, 2, 3)]),
     covers=['two_names', 'one_name'], twin_pre=['1 <= mode <= 2 and rf == 2 and not diverse'],
     encodes=['carbon.routers:AggregatedConsistentHashingRouter.getDestinations', 'carbon.routers:ConsistentHashingRouter.getDestinations', 'carbon.hashing:ConsistentHashRing.get_nodes'],
